@@ -151,6 +151,24 @@ class HGen:
                 out.append((version, [], ops, 30))
         return out
 
+    def route_skip_does_not_leak(self):
+        """the endpoint has a route for action X that skips validation (inbound), and itself calls X: its own requests and
+        the replies to them are validated unless the call asked for skipping"""
+        out = []
+        for version, bad in (("1.6", {"type": "NotAType"}), ("2.0.1", {"type": "NotAType", "extra": 1})):
+            good = {"type": "Hard" if version == "1.6" else "Immediate"}
+            routes = [self.g.route("Reset", ("ret", {"status": "Accepted"}), skip=True),
+                      self.g.route("DataTransfer", ("ret", {"status": "Accepted"}), skip=True)]
+            ops = [("start", 0, "q0", "Reset", bad, False, False, True), ("tick", 1),
+                   ("start", 1, "q1", "Reset", good, False, False, True),
+                   ("inbound", json.dumps([3, "q1", {"status": "NotAStatus"}])), ("tick", 1),
+                   ("inbound", json.dumps([2, "in-1", "Reset", bad])), ("tick", 1),
+                   ("start", 2, "q2", "Reset", bad, False, False, True), ("tick", 1),
+                   ("start", 3, "q3", "Reset", bad, True, False, True),
+                   ("inbound", json.dumps([3, "q3", {"status": "NotAStatus"}])), ("tick", 1)]
+            out.append((version, routes, ops, 30))
+        return out
+
     def reply_burst(self, n):
         """a caller is waiting; the reader finds n stale replies and then the matching one all buffered and routes
         them back to back; before that, n unsolicited replies while nobody waits"""
@@ -220,7 +238,8 @@ class HGen:
             timeout = self.rng.choice([30, 2, 10, 2.5, 0.75, 1.75, 30.25])
             hs.append(self.history(self.rng.choice([6, 12, 25, 40]) if self.tier == "quick" else self.rng.choice([10, 40, 120]), timeout))
         hs.append(self.stale_flood(300 if self.tier == "quick" else 3000))
-        return self.skip_overlap() + self.skip_then_validate() + self.special_ids() + self.error_codes() + self.reply_burst(1100 if self.tier == "quick" else 2600) + hs
+        # the scenario families that C04/C05/C16 need come first (those checks take a prefix), then the random histories
+        return self.skip_overlap() + self.skip_then_validate() + self.route_skip_does_not_leak() + hs + self.special_ids() + self.error_codes() + self.reply_burst(1100 if self.tier == "quick" else 2600)
 
 
 def run_histories(rep, hs, tag, prop_id, oracle, view, shard_size=8, async_validation=False):
